@@ -35,6 +35,8 @@ func (c01Mon) after(h *H, s *step) {
 			cls = "ended-session"
 		case strings.Contains(why, "holds no tokens"):
 			cls = "no-tokens"
+		case strings.Contains(why, "absolute timeout"):
+			cls = "session-timeout"
 		case strings.Contains(why, "expired"):
 			cls = "expired-tokens"
 		}
@@ -74,6 +76,17 @@ func c01Behaviours(c *sim.Case) (*sim.Behaviour, string) {
 	}
 }
 
+// c01BehaviourByName returns the named failing-provider behaviour.
+func c01BehaviourByName(name string) (*sim.Behaviour, string) {
+	switch name {
+	case "foreign-key":
+		return &sim.Behaviour{Name: "foreign-key", Rotate: true, Mutate: func(p *sim.IdP, honest string, claims map[string]any, _ *sim.TokenCall) string {
+			return sim.HonestToken(sim.Keys()[3].With(p.SignKey.Kid, ""), claims)
+		}}, "foreign-key"
+	}
+	return &sim.Behaviour{Name: "honest"}, "honest"
+}
+
 var c01Profile = opProfile{
 	browsers: 2, wNav: 5, wLogin: 4, wAuthorize: 1, wCallback: 1, wLogout: 2, wAdvance: 5, wIdP: 2, wAttack: 3,
 	attacks:    []string{"no-cookie", "unknown-id", "garbage-cookie", "stale-id", "pending-id-app", "replay-callback", "forged-callback"},
@@ -98,6 +111,9 @@ func genHistOpts(c *sim.Case) histOpts {
 	ho.idTTL, _ = time.ParseDuration(sim.PickStr(c, "idttl", "60s", "600s", "3600s"))
 	ho.expIn = []int{0, 30, 300, 7200}[sim.Pick(c, "expires_in", 4)]
 	ho.noRT = sim.Weighted(c, "no-refresh-token", 3, 1) == 1
+	if sim.Weighted(c, "abs-timeout", 2, 1) == 1 {
+		ho.o.Abs = []time.Duration{30 * time.Minute, 2 * time.Hour, 24 * time.Hour}[sim.Pick(c, "abs", 3)]
+	}
 	if ho.o.Logout && ho.o.Discovery && sim.Bool(c, "explicit-logout-uri") {
 		ho.o.LogoutURI = "http://sso.test/custom-logout"
 	}
@@ -111,7 +127,7 @@ func (ho histOpts) build(c *sim.Case, mons ...monitor) *H {
 	for k, v := range ho.faults {
 		w.Faults[k] = v
 	}
-	return newH(c, w, 2, mons...)
+	return newH(c, w, 3, mons...)
 }
 
 func (ho histOpts) String() string {
@@ -221,6 +237,9 @@ func c01Canon(i int) (name string, noRT bool, ops []op) {
 		return "refresh-refused", false, []op{login, adv, {K: "idp", Beh: &sim.Behaviour{Status: 400}, BehTag: "http-400"}, nav, nav}
 	case 4:
 		return "logout", false, []op{login, {K: "logout"}, nav}
+	case 6:
+		b, _ := c01BehaviourByName("foreign-key")
+		return "refresh-answer-fails-validation", false, []op{login, adv, {K: "idp", Beh: b, BehTag: "foreign-key"}, nav, nav}
 	default:
 		return "expired-no-refresh-token", true, []op{login, adv, nav}
 	}
@@ -229,8 +248,8 @@ func c01Canon(i int) (name string, noRT bool, ops []op) {
 func c01Enum(pairs bool) func(c *sim.Case) {
 	cache := map[int]int{}
 	return func(c *sim.Case) {
-		combo := sim.Pick(c, "combo", 24) // history x store x forwarding
-		hi, st, at := combo%6, (combo/6)%2, combo/12
+		combo := sim.Pick(c, "combo", 28) // history x store x forwarding
+		hi, st, at := combo%7, (combo/7)%2, combo/14
 		if pairs && hi > 2 && hi != 4 {
 			c.Skip("pairs only for the three shortest histories")
 		}
@@ -283,7 +302,7 @@ func c01Enum(pairs bool) func(c *sim.Case) {
 func TestC01(t *testing.T) {
 	r := sim.NewRun(t, "C01")
 	defer r.Finish()
-	r.Rule = "histories of browser ops (nav, login, authorize, callback, logout), clock advances around token expiries, provider behaviour switches and attacker requests (no cookie, unknown/stale/pending id, garbage cookie, replayed/forged callbacks) on memory and Redis stores; each history runs clean, then again with 1-2 injected faults at drawn interception points (every SessionStore call, token-endpoint call, key lookup; before or after taking effect). Enumerated part: six canonical histories x both stores x forwarding on/off x EVERY single fault position x both modes (pairs for the short ones in thorough). Non-trivial = history has an OK verdict and at least one of {clock advance, logout, fault fired, attacker request}; distinct = distinct (config, step kinds and verdict codes, fault plan)."
+	r.Rule = "histories of browser ops (nav, login, authorize, callback, logout), clock advances around token expiries, provider behaviour switches and attacker requests (no cookie, unknown/stale/pending id, garbage cookie, replayed/forged callbacks) on memory and Redis stores; each history runs clean, then again with 1-2 injected faults at drawn interception points (every SessionStore call, token-endpoint call, key lookup; before or after taking effect). Enumerated part: seven canonical histories x both stores x forwarding on/off x EVERY single fault position x both modes (pairs for the short ones in thorough). Non-trivial = history has an OK verdict and at least one of {clock advance, logout, fault fired, attacker request}; distinct = distinct (config, step kinds and verdict codes, fault plan)."
 	r.Assumptions = []string{
 		"the abstract session model is driven only by observed responses and the provider's ledger, never by store contents",
 		"a step during which a fault fired makes the model set-valued (effect happened / did not)",
